@@ -55,6 +55,30 @@ struct Acc {
     skipped: u64,
 }
 
+/// the case being executed, for the hang monitor
+static RUNNING: std::sync::Mutex<Option<(std::time::Instant, String)>> = std::sync::Mutex::new(None);
+pub const HANG_SECS: u64 = 120;
+
+/// A generated case is a few dozen cheap operations. One that has not completed after HANG_SECS
+/// is left behind as `<out>.hang` (a replay file) and the process exits with status 3; the
+/// driver decides what that means (for C07: a deadlock, if it reproduces from a fresh process).
+fn spawn_hang_monitor(out: String) {
+    std::thread::Builder::new()
+        .name("hang-monitor".into())
+        .spawn(move || loop {
+            std::thread::sleep(std::time::Duration::from_millis(500));
+            let g = RUNNING.lock().unwrap();
+            if let Some((t0, body)) = g.as_ref() {
+                if t0.elapsed().as_secs() >= HANG_SECS {
+                    std::fs::write(format!("{}.hang", out), body).ok();
+                    eprintln!("case did not complete within {} s; left {}.hang", HANG_SECS, out);
+                    std::process::exit(3);
+                }
+            }
+        })
+        .unwrap();
+}
+
 fn worker(args: &[String]) -> i32 {
     let prop = arg(args, "--prop").expect("--prop");
     let variant = arg(args, "--variant").unwrap_or("api");
@@ -105,8 +129,11 @@ fn worker(args: &[String]) -> i32 {
     });
     let start = std::time::Instant::now();
     let opts = spec.opts.clone();
+    spawn_hang_monitor(out.to_string());
     let result = runner.run(&strategy, |p: Program| {
+        *RUNNING.lock().unwrap() = Some((std::time::Instant::now(), json!({"property": prop, "variant": variant, "program": p, "expect": "pass"}).to_string()));
         let h = exec::run_case(&p, &opts);
+        *RUNNING.lock().unwrap() = None;
         let viols = (spec.oracle)(&h);
         let mut a = acc.borrow_mut();
         let unknown: Vec<&Viol> = viols.iter().filter(|v| !known.iter().any(|k| *k == v.sig)).collect();
